@@ -22,7 +22,7 @@ type C15Case struct {
 }
 
 var c15Kinds = []string{"absent", "present-valid", "present-garbage", "unwritable-EACCES", "unwritable-EROFS",
-	"dir-at-output", "log-unwritable", "log-is-dir", "mid-write", "stat-src-error", "open-EMFILE", "commit-error", "output-links-to-setup", "stdout-unwritable", "interrupted", "go-tool-failing", "log-device-full", "output-dangling-link", "timers-fire-early"}
+	"dir-at-output", "log-unwritable", "log-is-dir", "mid-write", "stat-src-error", "open-EMFILE", "commit-error", "output-links-to-setup", "stdout-unwritable", "interrupted", "go-tool-failing", "log-device-full", "output-dangling-link", "timers-fire-early", "output-relative-link"}
 
 var outVariants = []string{"same-dir", "subdir", "other-pkg", "outside", "parent-missing", "abs-same-dir", "dotdot-outside"}
 
@@ -211,6 +211,23 @@ func genC15(cfg Config, ws *WorldSet, i, perWorld int) C15Case {
 				iv.LinkTarget = "{W}/outside/generated_elsewhere.go"
 				plan.Faults = append(plan.Faults, sim.Fault{Op: "OUTPUT-OPEN", Path: iv.OutPath, Kind: "open_err", Errno: sim.Pick(r, []string{"EACCES", "EROFS", "ENOSPC"})})
 			}
+		case "output-relative-link":
+			// the output path is a symbolic link with a RELATIVE target (a generated file
+			// kept in a store next to it: the name starts with "_", so the go tool leaves
+			// it out of the package). The kernel resolves such a target against the
+			// link's own directory, wherever the process was started: what is written
+			// through the link is the output, the link itself stays a link, and nothing
+			// appears anywhere else
+			store := filepath.Dir(iv.OutPath) + "/_generated_store.go"
+			if r.Chance(2, 3) {
+				data := []byte("package " + pkgNameOf(world.Files[world.Setup]) + "\n\n// older output\nvar Older = 1\n")
+				if canon.HasOut && r.Bool() {
+					data = canon.Out
+				}
+				steps = append(steps, Step{Op: "write", Path: store, Data: data})
+			}
+			steps = append(steps, Step{Op: "symlink", Path: iv.OutPath, Data: []byte("_generated_store.go")})
+			iv.LinkTarget = store
 		case "timers-fire-early":
 			// whatever timeout, deadline or timer the tree arms fires at once (the
 			// rest of the world was slow). Today's tree arms none: a plain run
